@@ -6,6 +6,7 @@ import (
 	"fmt"
 	"io"
 	"testing"
+	"testing/iotest"
 
 	"github.com/ipld/go-ipld-prime/codec/cbor"
 	"github.com/ipld/go-ipld-prime/codec/dagcbor"
@@ -32,6 +33,25 @@ type C03Case struct {
 // entry points a caller or a link system actually uses: the package functions dagcbor.Decode and cbor.Decode
 // and the decoders registered for 0x71 and 0x51 (expected behaviour: strict, resp. strict without links).
 var c03Modes = []string{"strict", "relaxed", "nolinks", "fn-dagcbor", "fn-cbor", "reg-0x71", "reg-0x51"}
+
+// c03Reader serves the input through one of the reader kinds a decoder meets in practice, chosen by a
+// deterministic function of the input: *bytes.Reader (an io.ByteReader), the same hidden behind a plain
+// io.Reader, an io.TeeReader (what LinkSystem.Load hands a codec), and one byte per Read.
+func c03Reader(b []byte) io.Reader {
+	k := len(b)
+	if len(b) > 0 {
+		k += int(b[len(b)-1])
+	}
+	switch k % 4 {
+	case 1:
+		return struct{ io.Reader }{bytes.NewReader(b)}
+	case 2:
+		return io.TeeReader(bytes.NewReader(b), io.Discard)
+	case 3:
+		return iotest.OneByteReader(bytes.NewReader(b))
+	}
+	return bytes.NewReader(b)
+}
 
 func c03NoLinks(mode string) bool { return mode == "nolinks" || mode == "fn-cbor" || mode == "reg-0x51" }
 
@@ -67,7 +87,7 @@ func c03Eval(b []byte, mode string) (class string, nontrivial bool, err error) {
 	want, dup, rerr := c03Ref(b, mode)
 	decode := c03Decoder(mode)
 	nb := basicnode.Prototype.Any.NewBuilder()
-	derr := evid.Guard("dagcbor.Decode", func() error { return decode(nb, bytes.NewReader(b)) })
+	derr := evid.Guard("dagcbor.Decode", func() error { return decode(nb, c03Reader(b)) })
 	if derr != nil && len(derr.Error()) >= 5 && derr.Error()[:5] == "PANIC" {
 		return "", false, fmt.Errorf("decoder panicked on %s (%s): %v", clip(b), mode, derr)
 	}
